@@ -839,3 +839,172 @@ Lemma module_imports_cover imps generated n l x :
 Proof.
   intros Hn Hl Hx. unfold module_imports_of. apply in_flat_map. exists n. split; [exact Hn|]. rewrite Hl. exact Hx.
 Qed.
+
+(* ================= the mixins recorded while generating classes are defined fragments ================= *)
+Definition defined (frags : list fragdef) (fn : string) : Prop := exists fd, find_frag fn frags = Some fd.
+Definition Qmix (frags : list fragdef) (s : st) : Prop := forall fn, In fn (st_mix s) -> defined frags fn.
+
+Lemma go_related_inv frags (rec : ptd_fun) :
+  (forall cn tn sub ex s cs s', rec cn tn sub ex s = Some (cs, s') -> Qmix frags s -> Qmix frags s') ->
+  forall rel sub ex s cs s', go_related rec rel sub ex s = Some (cs, s') -> Qmix frags s -> Qmix frags s'.
+Proof.
+  intros Hrec. induction rel as [|[cn' tn'] r IH]; intros sub ex s cs s' H HQ; simpl in H.
+  - inversion H; subst. exact HQ.
+  - destruct (rec cn' tn' sub ex s) as [[c1 s1]|] eqn:E1; [|discriminate].
+    destruct (go_related rec r sub ex s1) as [[c2 s2]|] eqn:E2; [|discriminate].
+    inversion H; subst. eapply IH; [exact E2|]. eapply Hrec; eauto.
+Qed.
+
+Lemma go_fields_inv frags (rec : ptd_fun) f sch snake cn tn :
+  (forall cn tn sub ex s cs s', rec cn tn sub ex s = Some (cs, s') -> Qmix frags s -> Qmix frags s') ->
+  forall fs s cs s', go_fields rec f sch frags snake cn tn fs s = Some (cs, s') -> Qmix frags s -> Qmix frags s'.
+Proof.
+  intros Hrec. induction fs as [|x r IH]; intros s cs s' H HQ; simpl in H.
+  - inversion H; subst. exact HQ.
+  - destruct x as [al nm mx sub|fn c|tc c sub]; [|eapply IH; eauto|eapply IH; eauto].
+    match type of H with match ?rl with _ => _ end = _ => destruct rl as [rl0|]; [|discriminate] end.
+    match type of H with match ?gr with _ => _ end = _ => destruct gr as [[c1 s1]|] eqn:E1; [|discriminate] end.
+    destruct (go_fields rec f sch frags snake cn tn r s1) as [[c2 s2]|] eqn:E2; [|discriminate].
+    inversion H; subst. eapply IH; [exact E2|].
+    eapply (go_related_inv frags rec Hrec); [exact E1|]. intros x Hx. apply HQ. exact Hx.
+Qed.
+
+Lemma ptd_inv sch frags g snake : forall fuel cn tn ss extra s cs s',
+  ptd fuel sch frags g snake cn tn ss extra s = Some (cs, s') -> Qmix frags s -> Qmix frags s'.
+Proof.
+  induction fuel as [|f IH]; intros cn tn ss extra s cs s' H HQ; [discriminate|]. simpl in H.
+  destruct (mem cn (st_public s)); [inversion H; subst; exact HQ|].
+  destruct (resolve f sch frags false ss tn (st_unp s)) as [[[fields mix] unp']|] eqn:E; [|discriminate].
+  match type of H with match ?gf with _ => _ end = _ => destruct gf as [[extras s2]|] eqn:E2; [|discriminate] end.
+  inversion H; subst. eapply (go_fields_inv frags _ f sch snake cn tn (IH)); [exact E2|].
+  intros fn Hfn. simpl in Hfn. apply in_app_or in Hfn. destruct Hfn as [Hfn|Hfn]; [apply HQ; exact Hfn|].
+  eapply resolve_mix_written; eassumption.
+Qed.
+
+Lemma gen_frag_mix_defined fuel sch frags g snake fd cs s' :
+  gen_frag fuel sch frags g snake fd = Some (cs, s') -> Qmix frags s'.
+Proof.
+  unfold gen_frag. destruct (unpack_fragment sch fd None).
+  - intro H. inversion H; subst. intros fn [].
+  - intro H. eapply ptd_inv; [exact H|]. intros fn [].
+Qed.
+
+Lemma gen_op_mix_defined fuel sch frags g snake o cs s' :
+  gen_op fuel sch frags g snake o = Some (cs, s') -> Qmix frags s'.
+Proof. unfold gen_op. intro H. eapply ptd_inv; [exact H|]. intros fn []. Qed.
+
+Lemma defined_name frags fn : defined frags fn -> In fn (map fr_name frags).
+Proof.
+  intros [fd H]. unfold find_frag in H. apply find_some in H. destruct H as [Hin He].
+  apply String.eqb_eq in He. subst fn. apply in_map. exact Hin.
+Qed.
+
+Lemma all_some_In {X Y} (f : X -> option Y) : forall l rs, all_some (map f l) = Some rs ->
+  forall r, In r rs -> exists x, In x l /\ f x = Some r.
+Proof.
+  induction l as [|h l IH]; intros rs H r Hr; simpl in H.
+  - inversion H; subst. destruct Hr.
+  - destruct (f h) as [y|] eqn:E; [|discriminate]. destruct (all_some (map f l)) as [ys|] eqn:E2; [|discriminate].
+    inversion H; subst. destruct Hr as [<-|Hr]; [exists h; split; [left; reflexivity | exact E]|].
+    destruct (IH ys eq_refl r Hr) as [x [Hx Hfx]]. exists x. split; [right; exact Hx | exact Hfx].
+Qed.
+
+Lemma lookup_combine_In {V} n : forall (ks : list string) (vs : list V) v, lookup n (combine ks vs) = Some v -> In v vs.
+Proof.
+  induction ks as [|k ks IH]; intros vs v H; simpl in H; [discriminate|].
+  destruct vs as [|v0 vs]; [discriminate|]. simpl in H.
+  destruct (String.eqb n k); [inversion H; subst; left; reflexivity | right; eapply IH; exact H].
+Qed.
+
+(* the dependency table generate_package builds is closed in the fragment names: the hypothesis of
+   fragment_present_total is a theorem for it *)
+Theorem frag_table_closed fuel sch frags g snake rfrags :
+  all_some (map (gen_frag fuel sch frags g snake) frags) = Some rfrags ->
+  let tbl := combine (map fr_name frags) (map (fun r => sort_uniq (st_mix (snd r))) rfrags) in
+  forall n d, In d (deps_of tbl n) -> In d (map fr_name frags).
+Proof.
+  intros H tbl n d Hd. unfold deps_of in Hd. destruct (lookup n tbl) as [l|] eqn:El; [|destruct Hd].
+  apply lookup_combine_In in El. apply in_map_iff in El. destruct El as [r [Er Hr]]. subst l.
+  apply (proj1 (sort_uniq_In _ _)) in Hd.
+  destruct (all_some_In _ _ _ H r Hr) as [fd [_ Hg]]. destruct r as [cs s']. simpl in Hd.
+  apply defined_name. eapply gen_frag_mix_defined; eassumption.
+Qed.
+
+(* ================= NoFragmentCycles implies the base graph is acyclic ================= *)
+Lemma succs_spread_graph frags fn fd : find_frag fn frags = Some fd ->
+  succs (spread_graph frags) fn = spreads_of (fr_sel fd).
+Proof.
+  unfold find_frag, spread_graph. induction frags as [|h r IH]; simpl; [discriminate|].
+  destruct (String.eqb (fr_name h) fn); [intro H; inversion H; reflexivity | exact IH].
+Qed.
+
+Lemma resolve_mix_path sch frags : forall fuel under ss root unp fs mix u,
+  resolve fuel sch frags under ss root unp = Some (fs, mix, u) ->
+  forall b, In b mix -> exists x, In x (spreads_of ss) /\ reachable (spread_graph frags) x b.
+Proof.
+  induction fuel as [|f IH]; intros under ss root unp fs mix u H b Hb; [discriminate|].
+  simpl in H. destruct ss as [|s rest]; [inversion H; subst; destruct Hb|].
+  match type of H with match ?r1 with _ => _ end = _ => destruct r1 as [[[f1 m1] u1]|] eqn:E1; [|discriminate] end.
+  destruct (resolve f sch frags under rest root u1) as [[[f2 m2] u2]|] eqn:E2; [|discriminate].
+  inversion H; subst. unfold spreads_of. simpl. apply in_app_or in Hb. destruct Hb as [Hb|Hb].
+  - destruct s as [al nm mx sub|fn c|tc c sub].
+    + inversion E1; subst. destruct Hb.
+    + destruct (find_frag fn frags) as [fd|] eqn:Ef; [|discriminate].
+      destruct (negb (under || c) && negb (unpack_fragment sch fd (Some root))).
+      * inversion E1; subst. destruct Hb as [<-|[]]. exists fn. split; [left; reflexivity | constructor].
+      * destruct (String.eqb (fr_on fd) root || (is_abstract sch (fr_on fd) && is_sub_type sch (fr_on fd) root)).
+        -- destruct (IH _ _ _ _ _ _ _ E1 b Hb) as [x [Hx Hr]]. exists fn. split; [left; reflexivity|].
+           eapply r_step; [|exact Hr]. rewrite (succs_spread_graph _ _ _ Ef). exact Hx.
+        -- inversion E1; subst. destruct Hb.
+    + destruct (inline_root sch tc root) as [rt|].
+      * destruct (IH _ _ _ _ _ _ _ E1 b Hb) as [x [Hx Hr]]. exists x. split; [|exact Hr].
+        apply in_or_app. left. exact Hx.
+      * inversion E1; subst. destruct Hb.
+  - destruct (IH _ _ _ _ _ _ _ E2 b Hb) as [x [Hx Hr]]. exists x. split; [|exact Hr]. apply in_or_app. right. exact Hx.
+Qed.
+
+Lemma top_graph_edge_gen fuel sch frags : forall l g',
+  all_some (map (fun fd => match resolve fuel sch frags false (fr_sel fd) (fr_on fd) [] with
+                           | Some (_, mix, _) => Some (fr_name fd, mix) | None => None end) l) = Some g' ->
+  forall a b, In b (succs g' a) ->
+  exists fd fs mix u, find_frag a l = Some fd /\
+    resolve fuel sch frags false (fr_sel fd) (fr_on fd) [] = Some (fs, mix, u) /\ In b mix.
+Proof.
+  induction l as [|h l IHl]; intros g' H a b Hb; simpl in H.
+  - inversion H; subst. destruct Hb.
+  - destruct (resolve fuel sch frags false (fr_sel h) (fr_on h) []) as [[[fs mix] u]|] eqn:E; [|discriminate].
+    destruct (all_some _) as [g0|] eqn:E0; [|discriminate]. inversion H; subst. simpl in Hb. unfold find_frag. simpl.
+    destruct (String.eqb (fr_name h) a).
+    + exists h, fs, mix, u. split; [reflexivity|]. split; [exact E | exact Hb].
+    + exact (IHl g0 eq_refl a b Hb).
+Qed.
+
+Lemma base_edge_is_spread_path fuel sch frags g : top_graph fuel sch frags = Some g ->
+  forall a b, In b (succs g a) -> tcr (spread_graph frags) a b /\ defined frags a.
+Proof.
+  intros Hg a b Hb. unfold top_graph in Hg.
+  destruct (top_graph_edge_gen _ _ _ _ _ Hg a b Hb) as [fd [fs [mix [u [Hf [E Hm]]]]]].
+  split; [|exists fd; exact Hf].
+  destruct (resolve_mix_path _ _ _ _ _ _ _ _ _ _ E b Hm) as [x [Hx Hr]].
+  exists x. split; [rewrite (succs_spread_graph _ _ _ Hf); exact Hx | exact Hr].
+Qed.
+
+Lemma base_reach_is_spread_reach fuel sch frags g : top_graph fuel sch frags = Some g ->
+  forall a b, reachable g a b -> reachable (spread_graph frags) a b.
+Proof.
+  intros Hg a b H. induction H as [n|a b c Hb Hr IH]; [constructor|].
+  eapply reachable_trans; [|exact IH]. apply tcr_reach.
+  exact (proj1 (base_edge_is_spread_path _ _ _ _ Hg a b Hb)).
+Qed.
+
+Theorem no_cycles_acyclic fuel sch frags g :
+  no_fragment_cycles frags = true -> top_graph fuel sch frags = Some g -> acyclic_g g.
+Proof.
+  intros Hn Hg a [b [Hb Hr]].
+  destruct (base_edge_is_spread_path _ _ _ _ Hg a b Hb) as [Ht [fd Hf]].
+  assert (Hc : tcr (spread_graph frags) a a).
+  { eapply tcr_then_reach; [exact Ht|]. eapply base_reach_is_spread_reach; eassumption. }
+  unfold find_frag in Hf. apply find_some in Hf. destruct Hf as [Hin He]. apply String.eqb_eq in He.
+  unfold no_fragment_cycles in Hn. rewrite forallb_forall in Hn. specialize (Hn fd Hin).
+  apply negb_true_iff in Hn. apply mem_false in Hn. apply Hn. rewrite He. apply frag_bases_spec. exact Hc.
+Qed.
